@@ -330,8 +330,9 @@ fn run_predecessors(case: &Case) {
     let mut r = Rng::for_case(h, "predecessor", 0);
     let col = |n: &str, t: msql_srv::ColumnType| msql_srv::Column { table: "t".into(), column: n.into(), coltype: t, colflags: msql_srv::ColumnFlags::empty() };
     use crate::shim::{Cell as SC, OnErr, QOp, QProg, RowForm, V};
-    for _ in 0..r.range(1, 3) {
-        let variant = r.below(8);
+    let heavy = h % 150 == 0;
+    for round in 0..r.range(1, 3) {
+        let variant = if heavy && round == 0 { 8 } else { r.below(8) };
         let mut c = match variant {
             0 => {
                 // a reply cut by a transport write error somewhere inside it
@@ -413,6 +414,21 @@ fn run_predecessors(case: &Case) {
                 let cols: Vec<_> = (0..n).map(|k| col(&format!("c{}", k), msql_srv::ColumnType::MYSQL_TYPE_LONG)).collect();
                 let ops = vec![QOp::Start(0), QOp::Row((0..n).map(|k| if k % 2 == 0 { SC::val(V::Null) } else { SC::val(V::I32(-1)) }).collect(), RowForm::Owned), QOp::DropRow];
                 Case::new(vec![Cmd::prepare(b"p"), Cmd::execute(1, &[], false)], vec![Script::PrepOk { id: 1, params: vec![], cols: cols.clone() }, Script::Q(QProg { colsets: vec![cols], ops, on_err: OnErr::Drop })])
+            }
+            8 => {
+                // (rare, heavy) a text row whose first cell fills a 2^24-1 packet, numbers behind it,
+                // over a transport that stops accepting writes after 1 MiB: a value encoder meets the
+                // transport error in the middle of a cell
+                let cols = vec![col("big", msql_srv::ColumnType::MYSQL_TYPE_LONG_BLOB), col("n", msql_srv::ColumnType::MYSQL_TYPE_LONGLONG), col("f", msql_srv::ColumnType::MYSQL_TYPE_DOUBLE), col("s", msql_srv::ColumnType::MYSQL_TYPE_VAR_STRING)];
+                let lens = [wire::MAXP - 4 - r.below(3) as usize, wire::MAXP - 4 - 7];
+                let ops = vec![QOp::Start(0), QOp::Col(SC::val(V::Stream(h, 1, lens[r.usize(2)]))), QOp::Col(SC::val(V::I64(1234567))), QOp::Col(SC::val(V::F64(-7654.25))), QOp::Col(SC::val(V::Bytes(b"left behind".to_vec()))), QOp::EndRow, QOp::Finish];
+                let mut c = Case::new(vec![Cmd::query(b"big")], vec![Script::Q(QProg { colsets: vec![cols], ops, on_err: OnErr::Drop })]);
+                // write operations so far: greeting pieces, OK, header packets; fail every write from the
+                // first one that follows about 1 MiB of output
+                c.write_limit = 1 << 20;
+                c.fault.err_at = Some(10 + r.below(6));
+                c.fault.persistent = true;
+                c
             }
             _ => {
                 // a rejected login
